@@ -1,6 +1,7 @@
 //@@ unit props=C18,C06
 // Unit vbadec: [MS-OVBA] 2.4.1 decompression (src/cfb.rs decompress_stream) and dir-stream record helpers (src/vba.rs), verbatim text.
 #![allow(unused_imports, dead_code, unused_variables, unused_mut, unused_assignments)]
+#![feature(pattern)]
 use vstd::prelude::*;
 use vstd::std_specs::iter::IteratorSpec;
 
@@ -862,6 +863,68 @@ spec fn module_ok(t: Seq<u8>, m: Module, cp: u16) -> bool {
             }
         }
 //@@ end
+
+// ---- REFERENCE records (2.3.4.2.2): Reference::from_stream, no-panic and termination only
+#[verifier::external_type_specification] #[verifier::external_body] pub struct ExPathBuf(std::path::PathBuf);
+use std::path::PathBuf;
+// TRUSTED: str::strip_prefix never panics (no functional clause depends on its result)
+pub assume_specification<P: std::str::pattern::Pattern> [str::strip_prefix::<P>] (_0: &str, _1: P) -> std::option::Option<&str>;
+//@@ item src/vba.rs struct Reference
+//@@ impl src/vba.rs "Reference"
+// TRUSTED: Reference::set_libid is NOT verified (String::rsplit / PathBuf are outside vstd). Assumed from its text: its only access to the
+// stream is `read_variable_record(stream, 1)?`, so the cursor never moves backwards; it does not touch `self.name`.
+// (its possible panic is the split_at finding of read_variable_record)
+//@@ fn src/vba.rs Reference::set_libid external_body ret=res
+//@@ sig
+    ensures final(stream)@.len() <= old(stream)@.len(), final(self).name == old(self).name,
+//@@ end
+//@@ fn src/vba.rs Reference::from_stream props=C18 entry ret=res
+//@@ sig
+//@@ loop 0
+            invariant true,
+            decreases stream@.len(),
+//@@ before /\*stream = &stream\[/#0of8
+                    proof {
+                        //# C06.reference_fixed_part_beyond_end
+                        assert(stream@.len() >= 4);
+                    }
+//@@ before /\*stream = &stream\[/#1of8
+                    proof {
+                        //# C06.reference_fixed_part_beyond_end
+                        assert(stream@.len() >= 6);
+                    }
+//@@ before /\*stream = &stream\[/#2of8
+                    proof {
+                        //# C06.reference_fixed_part_beyond_end
+                        assert(stream@.len() >= 4);
+                    }
+//@@ before /\*stream = &stream\[/#3of8
+                    proof {
+                        //# C06.reference_fixed_part_beyond_end
+                        assert(stream@.len() >= 26);
+                    }
+//@@ before /\*stream = &stream\[/#4of8
+                    proof {
+                        //# C06.reference_fixed_part_beyond_end
+                        assert(stream@.len() >= 4);
+                    }
+//@@ before /\*stream = &stream\[/#5of8
+                    proof {
+                        //# C06.reference_fixed_part_beyond_end
+                        assert(stream@.len() >= 6);
+                    }
+//@@ before /\*stream = &stream\[/#6of8
+                    proof {
+                        //# C06.reference_fixed_part_beyond_end
+                        assert(stream@.len() >= 4);
+                    }
+//@@ before /\*stream = &stream\[/#7of8
+                    proof {
+                        //# C06.reference_fixed_part_beyond_end
+                        assert(stream@.len() >= 6);
+                    }
+//@@ end
+//@@ endimpl
 
 } // verus!
 fn main() {}
